@@ -5,6 +5,7 @@ package main
 import (
 	"fmt"
 	"go/types"
+	"strconv"
 
 	"golang.org/x/tools/go/ssa"
 )
@@ -43,6 +44,7 @@ type StrAlt struct {
 	c    *Term
 	s    string
 	atom *Term // non-nil: an opaque symbolic string identified by this 64-bit id (supports only ==, copying, map keys)
+	alen *Term // length of the opaque string when known (BV64)
 }
 
 // StringV: alternatives are mutually exclusive and exhaustive.
@@ -522,7 +524,7 @@ func iteV(c *Term, a, b Value) Value {
 					return
 				}
 			}
-			out = append(out, StrAlt{cond, al.s, al.atom})
+			out = append(out, StrAlt{cond, al.s, al.atom, al.alen})
 		}
 		for _, al := range x.alts {
 			add(And(c, al.c), al)
@@ -548,6 +550,12 @@ func iteV(c *Term, a, b Value) Value {
 
 // eqV returns the term for a == b (Go semantics) for comparable values.
 func eqV(a, b Value) *Term {
+	if pa, ok := a.(Poison); ok {
+		panic(unsupported("comparison of an unrepresentable value (" + pa.why + ")"))
+	}
+	if pb, ok := b.(Poison); ok {
+		panic(unsupported("comparison of an unrepresentable value (" + pb.why + ")"))
+	}
 	switch x := a.(type) {
 	case *Term:
 		y, ok := b.(*Term)
@@ -602,8 +610,25 @@ func eqV(a, b Value) *Term {
 				switch {
 				case p.atom != nil && q.atom != nil:
 					ds = append(ds, And(p.c, q.c, Eq(p.atom, q.atom)))
-				case p.atom == nil && q.atom == nil && p.s == q.s:
-					ds = append(ds, And(p.c, q.c))
+				case p.atom == nil && q.atom == nil:
+					if p.s == q.s {
+						ds = append(ds, And(p.c, q.c))
+					}
+				default:
+					// opaque vs concrete: decidable only through the length
+					at, cs := p, q.s
+					if p.atom == nil {
+						at, cs = q, p.s
+					}
+					switch {
+					case at.alen != nil && at.alen.IsConst() && at.alen.val != uint64(len(cs)):
+					case at.alen != nil && cs == "":
+						ds = append(ds, And(p.c, q.c, Eq(at.alen, BV(64, 0))))
+					default:
+						if !And(p.c, q.c).IsFalse() {
+							panic(unsupported("comparison of an opaque symbolic string with the constant " + strconv.Quote(cs)))
+						}
+					}
 				}
 			}
 		}
